@@ -535,4 +535,154 @@ pub(crate) mod verif {
     pub fn shard_index_for(num_shards: usize, first_ancestor: usize) -> usize {
         super::shard_index_for(num_shards, first_ancestor)
     }
+
+    // ---- the real `PageCache` driven call by call; contents and LRU order exposed ----
+
+    use super::{Page, PageCache, PageMut};
+    use crate::{bitbox::BucketIndex, io::PagePool, Options};
+    use nomt_core::page_id::PageId;
+    use std::{num::NonZeroUsize, sync::Arc};
+
+    /// One cache shard: `(page id, tag, bucket)` of the pinned map (sorted by page id) and of the LRU (most
+    /// recently used first).
+    pub struct ShardDump {
+        pub page_limit: usize,
+        pub fixed: Vec<(PageId, u64, u64)>,
+        pub lru: Vec<(PageId, u64, u64)>,
+    }
+
+    /// A real `PageCache` over pages that carry a 64-bit tag in their first 8 bytes.
+    pub struct PageCacheSim {
+        cache: PageCache,
+        pool: PagePool,
+    }
+
+    fn tag_of(data: &super::FatPage) -> u64 {
+        let mut b = [0u8; 8];
+        b.copy_from_slice(&data[0..8]);
+        u64::from_le_bytes(b)
+    }
+
+    impl PageCacheSim {
+        /// `PageCache::new` with `commit_concurrency = shards`, `page_cache_size = size_mib`,
+        /// `page_cache_upper_levels = fixed_levels` (panics where it panics).
+        pub fn new(
+            root: Option<(u64, u64)>,
+            shards: usize,
+            size_mib: usize,
+            fixed_levels: usize,
+        ) -> Self {
+            let pool = PagePool::new();
+            let mut o = Options::new();
+            o.commit_concurrency(shards);
+            o.page_cache_size(size_mib);
+            o.page_cache_upper_levels(fixed_levels);
+            let root = root.map(|(tag, bucket)| {
+                let mut fat = pool.alloc_fat_page();
+                fat[..].fill(0);
+                fat[0..8].copy_from_slice(&tag.to_le_bytes());
+                (fat, BucketIndex::verif_new(bucket))
+            });
+            let cache = PageCache::new(root, &o, None);
+            PageCacheSim { cache, pool }
+        }
+
+        fn page(&self, tag: u64) -> Page {
+            let mut fat = self.pool.alloc_fat_page();
+            fat[..].fill(0);
+            fat[0..8].copy_from_slice(&tag.to_le_bytes());
+            PageMut::pristine_with_data(fat).freeze()
+        }
+
+        /// Overwrite every shard's `page_limit` by `NonZeroUsize::new(per_root_child * count).unwrap()`.
+        pub fn set_limit_per_root_child(&mut self, per_root_child: usize) {
+            let n = self.cache.shared.shards.len();
+            let counts = super::shard_regions(n);
+            // UNWRAP: the sim holds the only handle.
+            let shared = Arc::get_mut(&mut self.cache.shared).unwrap();
+            for (shard, (_, count)) in shared.shards.iter_mut().zip(counts) {
+                shard.page_limit = NonZeroUsize::new(per_root_child * count).unwrap();
+            }
+        }
+
+        pub fn shard_count(&self) -> usize {
+            self.cache.shard_count()
+        }
+
+        pub fn shard_index_for(&self, page_id: &PageId) -> Option<usize> {
+            self.cache.shard_index_for(page_id)
+        }
+
+        pub fn get(&self, page_id: PageId) -> Option<(u64, u64)> {
+            self.cache
+                .get(page_id)
+                .map(|(p, b)| (tag_of(p.page_data()), b.verif_index()))
+        }
+
+        /// `PageCache::insert`: the tag of the page it returns.
+        pub fn insert(&self, page_id: PageId, tag: u64, bucket: u64) -> u64 {
+            let page = self.page(tag);
+            let got = self
+                .cache
+                .insert(page_id, page, BucketIndex::verif_new(bucket));
+            tag_of(got.page_data())
+        }
+
+        pub fn batch_update(&self, updates: Vec<(PageId, Option<(u64, u64)>)>) {
+            let updates = updates
+                .into_iter()
+                .map(|(id, e)| {
+                    (
+                        id,
+                        e.map(|(tag, bucket)| (self.page(tag), BucketIndex::verif_new(bucket))),
+                    )
+                })
+                .collect();
+            self.cache.batch_update(updates)
+        }
+
+        pub fn evict(&self) {
+            self.cache.evict()
+        }
+
+        pub fn dump(&self) -> (Option<(u64, u64)>, Vec<ShardDump>) {
+            let root = self
+                .cache
+                .shared
+                .root_page
+                .read()
+                .as_ref()
+                .map(|e| (tag_of(&e.page_data), e.bucket_index.verif_index()));
+            let shards = self
+                .cache
+                .shared
+                .shards
+                .iter()
+                .map(|s| {
+                    let locked = s.locked.lock();
+                    let mut fixed: Vec<_> = locked
+                        .fixed_level_cache
+                        .iter()
+                        .map(|(id, e)| {
+                            (id.clone(), tag_of(&e.page_data), e.bucket_index.verif_index())
+                        })
+                        .collect();
+                    fixed.sort_by(|a, b| a.0.cmp(&b.0));
+                    let lru = locked
+                        .cached
+                        .iter()
+                        .map(|(id, e)| {
+                            (id.clone(), tag_of(&e.page_data), e.bucket_index.verif_index())
+                        })
+                        .collect();
+                    ShardDump {
+                        page_limit: s.page_limit.get(),
+                        fixed,
+                        lru,
+                    }
+                })
+                .collect();
+            (root, shards)
+        }
+    }
 }
